@@ -367,6 +367,73 @@ pub fn run_block<Ef: HEffect>(
     .boxed()
 }
 
+/// The same instruction language run against the *legacy* capability API (`CapabilityContext`):
+/// no join handles (await / abort are no-ops), `spawn` goes to the executor.
+pub fn run_block_legacy(
+    ctx: CapabilityContext<TestOp, Event>,
+    mut env: Env,
+    instrs: Arc<Vec<Instr>>,
+) -> BoxFuture<'static, Env> {
+    async move {
+        for i in instrs.iter() {
+            match i {
+                Instr::Emit(tag, e) => ctx.update_app(Event { tag: *tag, v: env.eval(e) }),
+                Instr::Notify(n, e) => ctx.notify_shell(TestOp { n: *n, v: env.eval(e) }).await,
+                Instr::Req(x, n, e) => {
+                    let v = ctx.request_from_shell(TestOp { n: *n, v: env.eval(e) }).await;
+                    env.vars.insert(*x, v);
+                }
+                Instr::Stream(x, n, e, limit, body) => {
+                    let mut s = ctx.stream_from_shell(TestOp { n: *n, v: env.eval(e) });
+                    let body = Arc::new(body.clone());
+                    let mut count = 0u32;
+                    loop {
+                        if *limit > 0 && count >= *limit {
+                            break;
+                        }
+                        match s.next().await {
+                            Some(v) => {
+                                env.vars.insert(*x, v);
+                                env = run_block_legacy(ctx.clone(), env, body.clone()).await;
+                                count += 1;
+                            }
+                            None => break,
+                        }
+                    }
+                    drop(s);
+                }
+                Instr::Spawn(_, body) => {
+                    let child_env = env.clone();
+                    let body = Arc::new(body.clone());
+                    let c2 = ctx.clone();
+                    ctx.spawn(async move {
+                        run_block_legacy(c2, child_env, body).await;
+                    });
+                }
+                Instr::Await(_) | Instr::Abort(_) => {}
+                Instr::Join(a, b) => {
+                    let fa = run_block_legacy(ctx.clone(), env.clone(), Arc::new(a.clone()));
+                    let fb = run_block_legacy(ctx.clone(), env.clone(), Arc::new(b.clone()));
+                    let _ = futures::join!(fa, fb);
+                }
+                Instr::Select(a, b) => {
+                    let mut fa = run_block_legacy(ctx.clone(), env.clone(), Arc::new(a.clone())).fuse();
+                    let mut fb = run_block_legacy(ctx.clone(), env.clone(), Arc::new(b.clone())).fuse();
+                    futures::select_biased! {
+                        _ = fa => {},
+                        _ = fb => {},
+                    }
+                    drop(fa);
+                    drop(fb);
+                }
+                Instr::SelfWake(k) => SelfWake(*k).await,
+            }
+        }
+        env
+    }
+    .boxed()
+}
+
 type RB<Ef> = RequestBuilder<Ef, Event, BoxFuture<'static, i64>>;
 type SB<Ef> = StreamBuilder<Ef, Event, BoxStream<'static, i64>>;
 
